@@ -61,8 +61,24 @@ type pval struct {
 
 var errVals sync.Map
 
+// valErr is an error type whose Error method dereferences its receiver: a
+// typed nil pointer of it is a legal panic value that cannot describe itself.
+type valErr struct{ msg string }
+
+func (e *valErr) Error() string { return e.msg }
+
+// badStringer's String method fails for the values used here.
+type badStringer int
+
+func (b badStringer) String() string { return []string{"a", "b"}[int(b)] }
+
 func panicValue(kind string, h, call int) any {
 	switch kind {
+	case "nilerrptr":
+		var e *valErr
+		return e
+	case "badstringer":
+		return badStringer(7 + h)
 	case "error":
 		return fmt.Errorf("boom %d/%d", h, call)
 	case "int":
